@@ -49,6 +49,7 @@ def main(argv=None):
     ap.add_argument("--update-baseline", action="store_true")
     ap.add_argument("--source-root", help="verify sources under this root instead of /repo/lib/sqlalchemy (selftest mutants)")
     a = ap.parse_args(argv)
+    os.environ["VERIF_TIER"] = a.tier
     seed = int(os.environ.get("VERIF_SEED", "0") or 0)
     try:
         mod = importlib.import_module(f"checks.{a.prop}")
